@@ -247,6 +247,158 @@ theorem nodup_foldl_ensureName (xs : List String) : ∀ (acc : List String), acc
   | nil => intro acc h; exact h
   | cons x xs ih => intro acc h; exact ih _ (nodup_ensureName h x)
 
+/-! ## per-layer refinement: a layer evolves like a standalone document under its own writes -/
+
+/-- the effect of a non-container Put on the content of the layer it names -/
+def putNodeDoc (c : AMap Node) (path : String) (v : Node) : Outcome (AMap Node) :=
+  let comps := splitPath path
+  withPath (fun c => add c (comps.getLastD "") v) c comps.dropLast
+
+def putLeavesDoc (c : AMap Node) (path : String) : List (String × Scalar) → Outcome (AMap Node)
+  | [] => .ok c
+  | (k, sc) :: rest =>
+    match putNodeDoc c (toPath path k) (.leaf sc) with
+    | .ok c' => putLeavesDoc c' path rest
+    | .err => .err
+    | .panic => .panic
+
+/-- the effect of a write step on the content of the layer it names (layer name ignored) -/
+def stepDoc (c : AMap Node) : Op → Outcome (AMap Node)
+  | .put _ path (.cont kvs) => putLeavesDoc c path (flattenMap kvs)
+  | .put _ path (.leaf sc) => putNodeDoc c path (.leaf sc)
+  | .put _ path (.list xs) => putNodeDoc c path (.list xs)
+  | .add _ kvs => .ok (addAll c kvs)
+  | .populate _ path d =>
+    if path = "" then .ok (addAll c d) else withPath (fun c => addAll c d) c (splitPath path)
+
+def runDoc (c : AMap Node) : List Op → Outcome (AMap Node)
+  | [] => .ok c
+  | op :: ops =>
+    match stepDoc c op with
+    | .ok c' => runDoc c' ops
+    | .err => .err
+    | .panic => .panic
+
+theorem layerOrEmpty_setLayer_self (s : Overlay) (l : String) (c : AMap Node) :
+    layerOrEmpty (setLayer s l c) l = c := by
+  simp [layerOrEmpty, layer_setLayer_self]
+
+theorem putNode_doc {s s' : Overlay} {l path : String} {v : Node} (h : putNode s l path v = .ok s') :
+    putNodeDoc (layerOrEmpty s l) path v = .ok (layerOrEmpty s' l) := by
+  unfold putNode at h
+  obtain ⟨c, hc, e⟩ := Outcome.map_eq_ok h
+  subst e
+  rw [layerOrEmpty_setLayer_self]
+  exact hc
+
+theorem putLeaves_doc {l path : String} : ∀ (leaves : List (String × Scalar)) {s s' : Overlay},
+    putLeaves s l path leaves = .ok s' →
+    putLeavesDoc (layerOrEmpty s l) path leaves = .ok (layerOrEmpty s' l)
+  | [], s, s', h => by
+    simp only [putLeaves, Outcome.ok.injEq] at h
+    simp [putLeavesDoc, h]
+  | (k, sc) :: rest, s, s', h => by
+    simp only [putLeaves] at h
+    cases h1 : putNode s l (toPath path k) (.leaf sc) with
+    | ok s₁ =>
+      rw [h1] at h
+      simp only [putLeavesDoc, putNode_doc h1]
+      exact putLeaves_doc rest h
+    | err => rw [h1] at h; cases h
+    | panic => rw [h1] at h; cases h
+
+theorem step_doc {s s' : Overlay} {op : Op} (h : step s op = .ok s') :
+    stepDoc (layerOrEmpty s op.target) op = .ok (layerOrEmpty s' op.target) := by
+  cases op with
+  | put l path v =>
+    cases v with
+    | cont kvs =>
+      have h' : putLeaves s l path (flattenMap kvs) = .ok s' := by simpa [step, put] using h
+      exact putLeaves_doc _ h'
+    | leaf sc =>
+      have h' : putNode s l path (.leaf sc) = .ok s' := by simpa [step, put] using h
+      exact putNode_doc h'
+    | list xs =>
+      have h' : putNode s l path (.list xs) = .ok s' := by simpa [step, put] using h
+      exact putNode_doc h'
+  | add l c =>
+    simp only [step, Outcome.ok.injEq] at h
+    subst h
+    simp [stepDoc, Op.target, addLayer, layerOrEmpty_setLayer_self]
+  | populate l path d =>
+    simp only [step, populate] at h
+    simp only [stepDoc, Op.target]
+    split at h
+    · rename_i hp
+      simp only [Outcome.ok.injEq] at h; subst h
+      simp [hp, layerOrEmpty_setLayer_self]
+    · rename_i hp
+      obtain ⟨c, hc, e⟩ := Outcome.map_eq_ok h
+      subst e
+      simp only [hp, if_false, layerOrEmpty_setLayer_self]
+      exact hc
+
+theorem step_other {s s' : Overlay} {op : Op} {l : String} (hl : l ≠ op.target) (h : step s op = .ok s') :
+    layerOrEmpty s' l = layerOrEmpty s l := by
+  have := step_effect h
+  unfold layerOrEmpty
+  cases hw : writesLayer op with
+  | none => simp only [hw] at this; rw [this]
+  | some l' =>
+    simp only [hw] at this
+    obtain ⟨e, t⟩ := this
+    rw [t.2 l (by rw [e]; exact hl)]
+
+theorem run_doc (l : String) : ∀ (ops : List Op) {s s' : Overlay}, run s ops = .ok s' →
+    runDoc (layerOrEmpty s l) (ops.filter fun op => op.target == l) = .ok (layerOrEmpty s' l)
+  | [], s, s', h => by
+    simp only [run, Outcome.ok.injEq] at h
+    simp [runDoc, h]
+  | op :: ops, s, s', h => by
+    simp only [run] at h
+    cases h1 : step s op with
+    | ok s₁ =>
+      rw [h1] at h
+      by_cases ht : op.target = l
+      · subst ht
+        simp only [List.filter_cons, beq_self_eq_true, if_true, runDoc, step_doc h1]
+        exact run_doc _ ops h
+      · have hb : (op.target == l) = false := by simpa using ht
+        simp only [List.filter_cons, hb]
+        rw [← step_other (fun e => ht e.symm) h1]
+        exact run_doc l ops h
+    | err => rw [h1] at h; cases h
+    | panic => rw [h1] at h; cases h
+
+/-! ## Search by layer names -/
+
+theorem layerOrEmpty_cons_ne {n l : String} (c : AMap Node) (rest : Overlay) (h : l ≠ n) :
+    layerOrEmpty ((n, c) :: rest) l = layerOrEmpty rest l := by
+  simp [layerOrEmpty, layer, AMap.get?, h]
+
+theorem flatMap_congr' {α β : Type} {f g : α → List β} : ∀ (xs : List α), (∀ x ∈ xs, f x = g x) →
+    xs.flatMap f = xs.flatMap g
+  | [], _ => rfl
+  | x :: xs, h => by
+    simp only [List.flatMap_cons]
+    rw [h x (List.mem_cons_self ..), flatMap_congr' xs (fun y hy => h y (List.mem_cons_of_mem _ hy))]
+
+theorem search_by_names (f : Scalar → Bool) : ∀ (s : Overlay), (layerNames s).Nodup →
+    search f s = (layerNames s).flatMap fun l => (Ytk.search f (layerOrEmpty s l)).map fun path => (l, path)
+  | [], _ => rfl
+  | (n, c) :: rest, h => by
+    simp only [layerNames, List.map_cons, List.nodup_cons] at h
+    simp only [search, layerNames, List.map_cons, List.flatMap_cons]
+    have ih := search_by_names f rest h.2
+    simp only [search, layerNames] at ih
+    rw [ih]
+    congr 1
+    · simp [layerOrEmpty, layer, AMap.get?]
+    · apply flatMap_congr'
+      intro l hl
+      have hne : l ≠ n := fun e => h.1 (e ▸ hl)
+      rw [layerOrEmpty_cons_ne c rest hne]
+
 /-! ## LookupAny -/
 
 theorem lookup_none_of_not_mem (s : Overlay) {l : String} (h : l ∉ layerNames s) (path : String) :
